@@ -82,10 +82,18 @@ def main(argv=None):
     # ---- bounded stand-ins / native runtime contract checks (labelled bounded; never counted as proved)
     bounded = []
     if hasattr(mod, "bounded") and not args.only:
-        try:
-            bounded = mod.bounded(tier, seed) or []
-        except Exception as e:
-            broken.append(("bounded", "crash", f"{type(e).__name__}: {e}", traceback.format_exc()[-2000:]))
+        # thorough tier: the native drivers are run for a second, different seed as well
+        for n, sd in enumerate([seed] if tier == "quick" else [seed, seed + 101]):
+            try:
+                part = mod.bounded(tier, sd) or []
+            except Exception as e:
+                broken.append(("bounded", "crash", f"{type(e).__name__}: {e}", traceback.format_exc()[-2000:]))
+                break
+            for b in part:
+                b["seed"] = sd
+                if n:
+                    b["bound"] = f"(second seed) {b.get('bound', '')}"
+            bounded.extend(part)
 
     # ---- baseline of obligation names
     base_path = os.path.join(VERIF, "baselines", f"{prop}.{tier}.json")
